@@ -287,3 +287,46 @@ def subsequence_filter(prog, b, source_param, pred_ok):
             return False, 'result is not collect() of the filtered sequence'
         return True, 'iterator filter + collect'
     return False, 'neither a single guarded push nor a single iterator filter (pushes=%d, filters=%d)' % (len(pushes), len(filters))
+
+
+def as_bound(g, truth):
+    """Canonical form of a comparison known to hold/fail on an edge: ('le'|'lt', a, b) meaning a <= b / a < b, or None."""
+    g = strip(g)
+    if not (isinstance(g, tuple) and g[0] == 'bin' and g[1] in ('Le', 'Lt', 'Ge', 'Gt') and truth in (True, False)):
+        return None
+    op, a, b = g[1], g[2], g[3]
+    if not truth:
+        op = {'Le': 'Gt', 'Lt': 'Ge', 'Ge': 'Lt', 'Gt': 'Le'}[op]
+    if op == 'Le':
+        return ('le', a, b)
+    if op == 'Lt':
+        return ('lt', a, b)
+    if op == 'Ge':
+        return ('le', b, a)
+    return ('lt', b, a)
+
+
+def true_conditions(body):
+    """For a bool function: one set of canonical bounds (as_bound) per return path that can yield `true`:
+    the dominating comparison edges plus, when the returned value is itself a comparison, that comparison."""
+    from . import opw
+    out = []
+    for t, d, rb in body.return_values():
+        t = strip(t)
+        v = const_val(t)
+        if v in (0, False):
+            continue
+        conds = []
+        for g, k, sw in body.guard_terms(d[1]):
+            bd = as_bound(g, opw.truth(k))
+            if bd is not None:
+                conds.append(bd)
+        if v in (1, True):
+            out.append(conds)
+        else:
+            bd = as_bound(t, True)
+            if bd is None:
+                out.append(None)          # some other expression: unknown
+            else:
+                out.append(conds + [bd])
+    return out
